@@ -184,6 +184,10 @@ func (q *querier) resolveRefQuery(ctx context.Context, repo vcs.Repository, majo
 				break
 			}
 		}
+		if version != nil {
+			// The first tagged revision met while walking back is the closest one.
+			break
+		}
 	}
 
 	// If the closes tagged version is an exact match, return it.
